@@ -23,9 +23,12 @@ open Rpyc.Proto.Life
 
 /-- a request made from inside the delivery of a response that meets the end closes the connection -/
 theorem obligation_dispatch_closes_on_eof : Gen.Proto.dispatchClosesOnEof = true := dispatch_closes_on_eof
+/-- boxing by reference on a closed channel raises EOFError and registers nothing -/
+theorem obligation_box_refuses_on_closed_channel : Gen.Proto.boxRefusesOnClosedChannel = true := box_refuses_on_closed_channel
 /-- a second `_cleanup` on the same connection returns quietly -/
 theorem obligation_cleanup_idempotent : Gen.Proto.cleanupIdempotent = true := cleanup_idempotent
-/-- when the stream's own close() raises, the hook still runs and everything is still released -/
+/-- when the stream's own close() raises (alone, with a raising disconnect hook, under close() with a raising
+`before_closed`), the hook still runs exactly once and all three tables are released -/
 theorem obligation_cleanup_survives_channel_close_error : Gen.Proto.cleanupSurvivesChannelCloseError = true :=
   cleanup_survives_channel_close_error
 
@@ -159,7 +162,7 @@ theorem fail_send_reply_leads_to_closed {l : Life} (h : Reach l) (ref : Bool) (r
     refine ⟨f.hook, ?_, f.done, f.inc, ?_⟩
     · intro hc
       have := f.cl hc
-      exact ⟨this.1, rfl, by simp [this.2.1, this.2.2, boxRegisters, boxRefusesOnClosedChannel]⟩
+      exact ⟨this.1, rfl, by simp [this.2.1, this.2.2, boxRegisters, box_refuses_on_closed_channel]⟩
     · intro ht
       simp only [Bool.and_eq_true] at ht
       exact f.tab ht.1
@@ -290,7 +293,7 @@ theorem issued_afterwards_fails {l : Life} (hc : l.chanClosed = true) (s : Nat) 
   refine ⟨{ l with issued := l.issued ++ [s], outcomes := l.outcomes ++ [(s, .eof)],
                    tablesCleared := l.tablesCleared && !boxRegisters true refArg },
     by simp [step, hn, hc], by simp, rfl, rfl, ?_, rfl⟩
-  simp [boxRegisters, boxRefusesOnClosedChannel]
+  simp [boxRegisters, box_refuses_on_closed_channel]
 
 /-! ### both sides: two automata joined by the channel (`Proto/LifePair.lean`) -/
 
